@@ -10,7 +10,7 @@
 """
 import random
 
-from ..core import B, outcome
+from ..core import toy_guard, B, outcome
 from ..toycurve import TOY_CURVES, curve_params, toy
 
 P256 = 2 ** 256 - 2 ** 32 - 977
@@ -320,7 +320,15 @@ def run(ctx):
                 "(scalar class) for real multiplications, rejection class for encodings")
     ctx.assumptions = ["on secp256k1 every executed addition is validated; scalars and points are sampled (with the boundary scalars 0, 1, n-1, n, n+1, negative, > 2^256)"]
     curves = MC_CURVES[:6] if q else MC_CURVES
-    if ctx.want("tables"):
+    if ctx.want("real"):
+        cases = real_cases(ctx, rng, 4 if q else 60)
+        byid = {c["id"]: c for c in cases}
+        bad = ctx.validate("curve/C03Cases.tla", cases, "C03Cases.cfg", timeout=7200, per_shard_min=2)
+        for cid, why in bad.items():
+            c = byid[cid]
+            ctx.violation("real:%s:%s" % (c["kind"], why), "secp256k1 %s case %s rejected: %s" % (c["kind"], cid, why), {"kind": "case", "case": {k: v for k, v in c.items() if k != "adds"}})
+        ctx.sample({"real_case": {k: v for k, v in cases[0].items() if k != "adds"}, "n_additions": len(cases[0].get("adds", []))})
+    def _toy_part():
         def job(c):
             p, a, b = c
             cfg = curve_cfg(ctx, p, a, b)
@@ -335,11 +343,5 @@ def run(ctx):
             if tab["a"] == 0 and tab["p"] % 4 == 3 and tab["order"] > tab["p"] and all(tab["order"] % d for d in range(2, tab["order"])):
                 replay_s256_toy(ctx, tab)
         ctx.exhaustive.append("small curves %s: field axioms, group axioms incl. associativity over all triples, double-and-add machine for all k <= 2n+1 and all points; complete tables replayed" % curves)
-    if ctx.want("real"):
-        cases = real_cases(ctx, rng, 4 if q else 60)
-        byid = {c["id"]: c for c in cases}
-        bad = ctx.validate("curve/C03Cases.tla", cases, "C03Cases.cfg", timeout=7200, per_shard_min=2)
-        for cid, why in bad.items():
-            c = byid[cid]
-            ctx.violation("real:%s:%s" % (c["kind"], why), "secp256k1 %s case %s rejected: %s" % (c["kind"], cid, why), {"kind": "case", "case": {k: v for k, v in c.items() if k != "adds"}})
-        ctx.sample({"real_case": {k: v for k, v in cases[0].items() if k != "adds"}, "n_additions": len(cases[0].get("adds", []))})
+    if ctx.want("tables"):
+        toy_guard(ctx, _toy_part)
